@@ -1,0 +1,6 @@
+//go:build !verif
+
+package kvstore
+
+// verifEnqueueYield is a yield point for schedule-controlling tests; without build tag "verif" it does nothing.
+func verifEnqueueYield(*BatchedWriter, BatchWriteObject, int) {}
